@@ -170,7 +170,8 @@ def lean_bytes(xs):
 def main():
     repo, out = sys.argv[1], sys.argv[2]
     c = Consts()
-    L = []
+    L = []          # Gen/Constants.lean: numbers, byte strings and booleans the MODEL is built from
+    F = []          # Gen/Facts.lean: source facts (field orders, bodies, structural lists) that only the Props/Source obligations read
     missing = []
     def put(kind, name, thunk, origin):
         try:
@@ -186,7 +187,7 @@ def main():
         elif kind == "bool":
             L.append("/-- %s -/\ndef %s : Bool := %s" % (origin, name, "true" if v else "false"))
         else:
-            L.append("/-- %s -/\ndef %s : List (List String) := [%s]" % (origin, name,
+            F.append("/-- %s -/\ndef %s : List (List String) := [%s]" % (origin, name,
                      ", ".join("[" + ", ".join(lean_str(a) for a in grp) + "]" for grp in v)))
     def src(rel):
         try:
@@ -539,22 +540,25 @@ def main():
     for gname, prefixes in groups:
         mine = [x for x in allf if any(("@" + p) in x for p in prefixes)]
         seen.update(mine)
-        L.append("/-- hand-written impls of, and derive lists restricted to, Clone/Copy/PartialEq/Eq/Hash/Ord/PartialOrd/Default/Drop in %s -/\ndef %s : List String := [%s]"
+        F.append("/-- hand-written impls of, and derive lists restricted to, Clone/Copy/PartialEq/Eq/Hash/Ord/PartialOrd/Default/Drop in %s -/\ndef %s : List String := [%s]"
                  % (", ".join(prefixes), gname, ",\n  ".join(lean_str(x) for x in mine)))
-    L.append("/-- the same for source files outside the groups above (new files) -/\ndef structuralOther : List String := [%s]"
+    F.append("/-- the same for source files outside the groups above (new files) -/\ndef structuralOther : List String := [%s]"
              % ", ".join(lean_str(x) for x in allf if x not in seen))
     L.append("/-- constants the translator could not find in the source (placeholders were emitted for them) -/\ndef missingConstants : List String := [%s]"
              % ", ".join(lean_str(m.split(":")[0]) for m in missing))
     text = ("/- GENERATED by tools/gen_constants.py from the Rust sources on every run. Do not edit. -/\n"
             "namespace WowSrp.Gen\n\n" + "\n\n".join(L) + "\n\nend WowSrp.Gen\n")
-    old = open(out).read() if os.path.exists(out) else None
-    if old != text:
-        os.makedirs(os.path.dirname(out), exist_ok=True)
-        with open(out, "w") as f:
-            f.write(text)
-        print("gen_constants: wrote", out)
-    else:
-        print("gen_constants: unchanged")
+    ftext = ("/- GENERATED by tools/gen_constants.py from the Rust sources on every run. Do not edit.\n   Source FACTS (text-level): kept apart from Constants.lean so that an edit which changes no constant does not rebuild the model. -/\n"
+             "namespace WowSrp.Gen\n\n" + "\n\n".join(F) + "\n\nend WowSrp.Gen\n")
+    for path, t in ((out, text), (os.path.join(os.path.dirname(out), "Facts.lean") if os.path.basename(out) == "Constants.lean" else out + ".facts", ftext)):
+        old = open(path).read() if os.path.exists(path) else None
+        if old != t:
+            os.makedirs(os.path.dirname(path), exist_ok=True)
+            with open(path, "w") as f:
+                f.write(t)
+            print("gen_constants: wrote", path)
+        else:
+            print("gen_constants: unchanged", path)
     if missing:
         for m in missing:
             print("gen_constants: BROKEN TIE (placeholder emitted): " + m, file=sys.stderr)
